@@ -250,7 +250,7 @@ def main(argv=None):
                 if small is not v["input"]:
                     o = s.impl_batch([small])[0]
                     r = s.oracle(small, o)
-                    v = dict(v, input=small, observed=o, expected=r[2] if r else v["expected"])
+                    v = dict(v, input=small, observed=o, expected=r[2] if r else v["expected"], what=r[1] if r else v["what"])
             except Exception:
                 pass
         payload = {
